@@ -156,7 +156,7 @@ fn gen_coll(rng: &mut Rng, kind: &str, size: &str) -> Scenario {
     if kind == "mb" {
         sc.ctor = "from_iter".into();
     }
-    if !bounded && sc.ctor == "from_iter" && rng.pct(50) {
+    if (!bounded || kind == "fub") && sc.ctor == "from_iter" && rng.pct(50) {
         sc.ctor = "from_iter_lazy".into();
     }
     if !bounded && sc.ctor == "with_capacity" && !real {
@@ -209,6 +209,7 @@ fn gen_coll(rng: &mut Rng, kind: &str, size: &str) -> Scenario {
         }
     }
     sc.tail = tail(rng);
+    sc.final_wake = rng.pct(25);
     sc
 }
 
@@ -236,7 +237,7 @@ fn gen_adapter(rng: &mut Rng, kind: &str, size: &str) -> Scenario {
     if rng.pct(80) {
         sc.up.push(UpStep { resp: "E".into(), c: 0 });
     }
-    sc.hint = rng.pick(&["exact", "none", "loose"]).into();
+    sc.hint = rng.pick(&["exact", "none", "loose", "lower"]).into();
     let selfwake = if rng.pct(30) { 50 } else { 15 };
     for id in 1..=c {
         let mut s = child_script(rng, kind, id, c, selfwake);
@@ -269,6 +270,9 @@ fn gen_adapter(rng: &mut Rng, kind: &str, size: &str) -> Scenario {
 fn gen_join(rng: &mut Rng, kind: &str, size: &str) -> Scenario {
     let real = size == "real";
     let mut sc = Scenario { kind: kind.into(), ctor: "from_iter".into(), ..Default::default() };
+    if rng.pct(40) {
+        sc.ctor = "from_iter_lazy".into();
+    }
     let n = if real { rng.below(120) as u32 } else { rng.below(6) as u32 };
     for c in 1..=n {
         sc.init.push(c);
